@@ -103,5 +103,3 @@ func cmdVC(args []string) {
 	fmt.Printf("total %.1fs\n", time.Since(t0).Seconds())
 }
 
-func cmdCheck(args []string) int  { return 2 }
-func cmdReplay(args []string) int { return 2 }
